@@ -22,7 +22,7 @@ LEVEL = "exploration"
 COMPUTERS = ("superadditive", "superadditive_cached", "sam_apx_1", "sam_apx_10", "sam_apx_100")
 RULE = ("Hypothesis RuleBasedStateMachine A: values of ANY class (arbitrary / superadditive / SAM; int, dyadic, float), n=3..6, "
         "one long-lived object per registered computer (superadditive, superadditive_cached, sam_apx_1/10/100, sam_apx_1000 "
-        "for n<=4 in thorough); rules reveal, unreveal, set, unset, overwrite (new value for a known coalition), reset-to-K', compute, compute-twice, poison (seeded "
+        "for n<=4 in thorough); rules reveal, unreveal, set, unset, set_many (bulk set_values of several unknown coalitions), overwrite (new value for a known coalition), reset-to-K', compute, compute-twice, poison (seeded "
         "arbitrary bounds on all unknown rows via set_lower_bounds/set_upper_bounds), probe-undo (reveal+compute, "
         "unreveal+compute == snapshot). Oracle: table bit-identical to a fresh object with the same knowledge computed once. "
         "Machine B: ICG_Gym over a fixed hidden game: step(a); unstep(a) restores state/reward/done/steps/mask/table exactly; "
@@ -105,6 +105,8 @@ class Sim:
                 g.reveal_value(self.v[op[1]], repo.coal(op[1]))
             elif kind == "set":
                 g.set_value(self.v[op[1]], repo.coal(op[1]))
+            elif kind == "set_many":
+                g.set_values(np.array([self.v[m] for m in op[1]], dtype=float), repo.coals(op[1]))   # bulk set, no reset
             elif kind == "overwrite":
                 g.set_value(op[2], repo.coal(op[1]))       # a different value for an already known coalition
             elif kind == "unreveal":
@@ -122,6 +124,8 @@ class Sim:
         if kind == "overwrite":
             self.v[op[1]] = float(op[2])
             self.stale_before = True
+        if kind == "set_many":
+            self.K.update(op[1])
         if kind in ("reveal", "set"):
             self.K.add(op[1])
         elif kind in ("unreveal", "unset"):
@@ -325,6 +329,12 @@ def make_machine(max_n: int, with_1000: bool):
         @rule(data=st.data())
         def reset(self, data):
             self._do(["reset", data.draw(knowledge_sets(self.sim.n))])
+
+        @precondition(lambda self: self.sim is not None and self._unknown())
+        @rule(picks=st.lists(st.integers(0, 2**20), min_size=1, max_size=4))
+        def set_many(self, picks):
+            u = self._unknown()
+            self._do(["set_many", sorted({u[i % len(u)] for i in picks})])
 
         @precondition(lambda self: self.sim is not None)
         @rule(i=st.integers(0, 2**20), delta=st.sampled_from([-7.0, -1.0, -0.5, 0.25, 1.0, 3.0, 16.0]))
